@@ -785,6 +785,11 @@ def handler_invocation(handler, request):
             raise RPCError.invalid_args(
                 f'{len(args)} argument{s} passed to method '
                 f'{method} taking at most {info.max_args}')
+        if info.required_kwonly:
+            s = '' if len(info.required_kwonly) == 1 else 's'
+            names = ', '.join(f'"{name}"' for name in info.required_kwonly)
+            raise RPCError.invalid_args(f'method "{method}" requires '
+                                        f'parameter{s} {names} passed by name')
         return partial(handler, *args)
 
     # Arguments passed by name
